@@ -499,6 +499,8 @@ def r3(ctx, rep):
             elif key in rev:
                 used_rev.add(key)
                 rep.ok(key, {"reviewed": rev[key]["reason"], "detail": detail})
+            elif moved_into_helper(cg, syn, owner, recv_txt, term, rev, used_rev):
+                rep.ok(key, {"reviewed": "same receiver and consumer as a reviewed row of the function that calls this private helper", "detail": detail})
             else:
                 rep.bad(key, f"iteration over a hash container ({recv[:70]}) with order-sensitive consumer `{term}`: {detail}. "
                         "Hash order differs between processes (random seed), so output or error text can differ between runs",
@@ -506,6 +508,32 @@ def r3(ctx, rep):
     for k in rev:
         if k not in used_rev and k.startswith("hash:"):
             rep.note(f"reviewed hash-order row no longer matches: {k}")
+
+
+def moved_into_helper(cg, syn, owner, recv_txt, term, rev, used_rev):
+    """A reviewed iteration that was moved verbatim into a private helper: some reviewed row `hash:<caller>:<same receiver>:<same consumer>` exists for a
+    function of the same file that calls this (non-public) function, and that caller no longer contains the iteration itself."""
+    me = [f for f in syn.fns if "body" in f and f["path"].split("::", 1)[-1] == owner["path"].split("::", 1)[-1] or f["path"].endswith("::" + owner["path"].split("::")[-1])]
+    me = [f for f in me if f["name"] == owner["path"].split("::")[-1]]
+    if len(me) != 1 or (me[0].get("vis") or "").startswith("pub"):
+        return False
+    name = me[0]["name"]
+    strip = lambda t: re.sub(r"^&(mut )?", "", t).replace("self.", "").replace("ctx.", "")
+    for k, row in rev.items():
+        if not k.startswith("hash:") or k in used_rev:
+            continue
+        parts = k[len("hash:"):].rsplit(":", 2)
+        if len(parts) != 3:
+            continue
+        caller_path, r_recv, r_term = parts
+        if r_term != term or strip(r_recv).split(".")[-1] != strip(recv_txt).split(".")[-1]:
+            continue
+        callers = [f for f in syn.fns if "body" in f and f["file"] == me[0]["file"] and (caller_path.endswith(f["name"]) or f["name"] in caller_path)
+                   and any(c.get("k") in ("call", "mcall") and (last_seg(show(c.get("f", {}))) == name if c.get("k") == "call" else c.get("m") == name) for c in walk(f["body"]))]
+        if callers:
+            used_rev.add(k)
+            return True
+    return False
 
 
 def r4(ctx, rep):
